@@ -23,6 +23,7 @@ logging.disable(logging.CRITICAL)
 ENCODED = [daemons._timer, daemons._runner, daemons.spawn_daemons, aiotime.sleep, processing.process_spawning_cause,
            progression.State.delays, progression.HandlerState.with_outcome]
 META = {
+    'technique': 'bounded symbolic execution of the real kopf code (CrossHair 0.0.110 + z3): exhaustive path exploration per obligation cell, counterexamples replayed concretely; plus direct z3 queries whose formulas are generated from the source AST of the real functions (vkopf/astsmt.py; the sharp-timer grid arithmetic for every integer interval), validated against the real code on concrete vectors on every run',
     'bounds': 'interval cell in {None,1,2,3,5} (x % interval needs a concrete modulus), sharp cell, idle/initial_delay symbolic '
               'ints >= 0 (or absent, cell); 3 runs; handler durations symbolic unbounded ints; first run may fail with '
               'TemporaryError(delay symbolic) or an arbitrary error (backoff symbolic); one essential change at a symbolic instant. '
